@@ -159,6 +159,11 @@ func (p *Prog) encodeFuncWith(fn *ssa.Function, spec *FuncSpec, bindName, bindVa
 			t = bindVal // use the literal itself so that every term mentioning the parameter is constant
 		}
 		args = append(args, t)
+		if fn.Signature.Recv() != nil && len(args) == 1 {
+			if _, isPtr := prm.Type().Underlying().(*types.Pointer); isPtr {
+				e.assume(not(eq(t, "0"))) // assumption: methods are not called on nil receivers
+			}
+		}
 		fr.wellFormed(prm.Type(), t, st)
 		e.rootParams = append(e.rootParams, paramModel{Name: prm.Name(), Type: prm.Type().String(), Term: t, Kind: kindOf(prm.Type())})
 		fr.params[prm.Name()] = binding{term: t, typ: prm.Type()}
